@@ -8,13 +8,21 @@ from props._util import rng_for, run_cases
 LEVEL = "other"
 DEDUCTIVE = [{"module": "rnapolis.tertiary", "sidecar": "contracts.mapping_c",
               "targets": ["Mapping2D3D.__generate_bpseq", "Mapping2D3D._generated_bpseq_data", "Mapping2D3D.base_pairs@body",
-                          "BasePair3D.reverse", "Structure3D.find_residue@body"]}]
+                          "BasePair3D.reverse", "Structure3D.find_residue@body"]},
+             {"module": "rnapolis.tertiary", "sidecar": "contracts.mapping_ext_c",
+              "targets": ["Mapping2D3D.extended_dot_bracket", "Mapping2D3D.__generate_dot_bracket_per_strand",
+                          "Mapping2D3D.dot_bracket", "Mapping2D3D.bpseq@body"]},
+             # the orientation nt1 < nt2 by which canonical pairs are selected (conflict resolution, rows of the extended dot-bracket)
+             # is the residue order: the contract of C05 / C04 (lexicographic on model, chain, number, insertion code)
+             {"module": "rnapolis.tertiary", "sidecar": "contracts.annotator_c", "targets": ["Residue3D.__lt__"]}]
 TRUSTED = ["CPython 3.12", "z3 5.1.0 / cvc5 1.0.3", "pyvc encoding of Python semantics (DESIGN 2.3)",
            "the MILP path of BpSeq.dot_bracket (C02)",
            "external (contracts.mapping_c EXTERNALS) builtins.sorted on a set: returns a list holding exactly the members of the set, each once; "
            "the ordering clause is NOT assumed (arbitrary permutation: over-approximates sorted()); its key function raises nothing",
            "external (contracts.mapping_c EXTERNALS) collections.defaultdict(set): empty dict whose missing-key read inserts set()",
-           "attr:BasePair3D.is_canonical (PURE_ATTRS): a pure function of the frozen record value; nothing else about it is used"]
+           "attr:BasePair3D.is_canonical (PURE_ATTRS): a pure function of the frozen record value; nothing else about it is used",
+           "contracts.mapping_ext_c uses the same two externals (defaultdict, sorted on a set) for Mapping2D3D.bpseq@body and introduces no new one",
+           "BpSeq.dot_bracket of common.py (C02) as read by Mapping2D3D.dot_bracket / extended_dot_bracket: a model field of the BpSeq object holding a DotBracket with a str `structure`; nothing about that text is assumed"]
 ASSUMPTIONS = ["each residue is named the same way (label+auth, label only, or auth only) throughout one pair list; orientation of a pair (which residue is first, hence which of cWH / cHW labels its row) follows the order of the names the list carries",
                "pair lists name nucleotide residues; self pairs are not generated (requires no_self_pairs: an entry whose two residues both resolve never resolves them to the same 3D residue); Saenger labels are a function of (bases, class) within one list",
                "structure: the nucleotide residues of Structure3D.residues are pairwise different values (==), i.e. usable as distinct dict keys (requires distinct_nucleotides)",
@@ -26,7 +34,14 @@ ASSUMPTIONS = ["each residue is named the same way (label+auth, label only, or a
                "Optional[Saenger] is only copied/compared by the code under contract: modelled as an opaque scalar",
                "BpSeq.__post_init__ (common.py) is not modelled: BpSeq.pairs of the returned object is unconstrained; it cannot raise on Entry rows",
                "the clause 'keeps every canonical pair that conflicts with no other' is stated for the entry in 5'->3' orientation (nt1 < nt2 by Residue.__lt__); both orientations are always in Mapping2D3D.base_pairs (proved), an entry whose two residues are not strictly ordered either way (same chain, number, icode) is not covered",
-               "set iteration order is arbitrary in the engine; which of two conflicting pairs survives is deliberately unspecified (the property does not say)"]
+               "set iteration order is arbitrary in the engine; which of two conflicting pairs survives is deliberately unspecified (the property does not say)",
+               "(mapping_ext_c) cached_property rule, as for base_pairs: Mapping2D3D.strands_sequences read by a caller is the model field strands_value (assumed callee contract strands_callee; the BODY of strands_sequences is not under contract), Mapping2D3D.bpseq read by a caller is the model field bpseq_value (clause `result == self.bpseq_value`; the other clauses are proved against the body as Mapping2D3D.bpseq@body)",
+               "(mapping_ext_c) Mapping2D3D.strand_offsets is a specification-only field: requires offsets_ok pins it to the prefix sums of the strand lengths of strands_value (always satisfiable, restricts no input)",
+               "(mapping_ext_c) rows / used_in_row of extended_dot_bracket hold list / set OBJECTS with identity (classes PairRow 'boxed_list', ResSet 'boxed_set'): every `[]` / `set()` display assigned to row / used creates a new heap object, row.append / used.add write that object's content field, aliases (elements of rows / used_in_row, the zip loop variables) denote the same object",
+               "(mapping_ext_c) LeontisWesthof is the real Enum class there (`for lw in LeontisWesthof` runs over its 18 members in definition order as a symbolic member, lw.value is the member's real value); the field lw of BasePair / BasePair3D is declared enum[LeontisWesthof] (ordinal) and ENUM_ORDINAL_EQ makes `base_pair.lw == lw` the comparison of ordinals",
+               "(mapping_ext_c) assumed callee contracts, each PROVED as a target of this property in contracts.mapping_c and not re-proved under the class table of mapping_ext_c (which differs only in the representation of the field lw, which none of them reads): Mapping2D3D.__generate_bpseq, Mapping2D3D._generated_bpseq_data, Mapping2D3D.base_pairs, Residue3D.is_connected",
+               "(mapping_ext_c) a row (list object) passed to __generate_bpseq stands for its content at the time of the call; the engine checks syntactically that the callee's body neither changes nor passes on that parameter",
+               "(mapping_ext_c) extended_dot_bracket and dot_bracket are under PREFIX contracts: verified up to, not including, the final '\\n'.join of the table of lines; the returned string itself is not under contract"]
 EXPLANATION = ("Deductive (pyvc, sidecar contracts/mapping_c.py, real source re-read on every run): "
                "(1) Mapping2D3D.__generate_bpseq(base_pairs) under `requires` distinct nucleotides + the pair list is a matching over 3D residues: "
                "entries are numbered 1..N (index_ == position), the BPSEQ is valid (pair in range, != self, symmetric => at most one partner), every numbered "
@@ -41,9 +56,18 @@ EXPLANATION = ("Deductive (pyvc, sidecar contracts/mapping_c.py, real source re-
                "(3) Mapping2D3D.base_pairs (lifting): the result is duplicate-free, consists only of liftings / reversed liftings of input entries whose two "
                "residues resolve (dangling entries dropped), contains the lifting and its reverse of every such entry, has no self pairs; BasePair3D.reverse "
                "swaps the residues and reverses the class; Structure3D.find_residue returns the residue registered under the label, else under the auth id, else None. "
-               "NOT under contract (bounded stand-in only): Mapping2D3D.bpseq wrapper (re-runs the same loop on dead locals, returns _generated_bpseq_data[0]), "
-               "strands_sequences / __generate_dot_bracket_per_strand / dot_bracket / all_dot_brackets (agreement of the two gap computations, text assembly) "
-               "and extended_dot_bracket (rows alias elements of `rows`; needs list objects with identity). Order of first occurrence in base_pairs is not proved.")
+               "NOT under contract (bounded stand-in only): the body of strands_sequences (agreement of its gap computation with the BPSEQ numbering; its value is a model field for the callers), "
+               "all_dot_brackets, the final '\\n'.join of dot_bracket / extended_dot_bracket, and the link from a BPSEQ to its dot-bracket text (BpSeq.dot_bracket: C02). Order of first occurrence in base_pairs is not proved. "
+               "(4) second sidecar contracts/mapping_ext_c.py (vocabulary of mapping_c imported): Mapping2D3D.extended_dot_bracket, prefix contract up to the final join, `rows` / `used_in_row` as lists of list / set objects with identity, "
+               "the loop over LeontisWesthof symbolic in the class. Invariants of the pair loop, each a named obligation: the row / set objects are pairwise distinct and created by the loop; every row is non-empty and a MATCHING over the 3D residues "
+               "(no residue in two of its pairs, no self pair) - so the precondition matching(row) of __generate_bpseq is PROVED at the call site (the clause both repaired defects dd9a38e / 0e0063f broke), and by (1) each row's BPSEQ is valid and "
+               "holds every pair of the row whose residues are numbered; the set kept beside a row covers every residue of the row; rows hold only given pairs of the current class in orientation nt1 < nt2; every such pair of Mapping2D3D.base_pairs "
+               "is in some row (ghost witness arrays, restated as an exists at loop exit: `every-wanted-pair-is-in-a-row`); no pair is drawn twice (neither in two rows nor twice in one). At the stop point: one block of lines per strand, "
+               "headed by '    >strand_<chain>' and 'seq <sequence>', all blocks equally long; line 2+k of block t is '<class value> ' + piece k,t; piece k,t is the slice of the k-th printed row's text at the strand's offset and of the strand's length "
+               "('as long as the sequence'); that text is the dot_bracket.structure of a BPSEQ object that is valid (symmetric, in range: no index carries two partners). "
+               "(5) __generate_dot_bracket_per_strand(text): one text per strand, the t-th being text[offset_t : offset_t + len(sequence_t)], offsets = prefix sums of the strand lengths ('the per-strand text concatenates to exactly that sequence and matching' at the level of slices). "
+               "(6) dot_bracket (prefix contract): three lines per strand - '>strand_<chain>', the sequence, the strand's slice of self.bpseq.dot_bracket.structure. "
+               "(7) bpseq wrapper (@body): its copy of the conflict-resolution loop terminates and raises nothing; the result (first component of _generated_bpseq_data) is numbered 1..N and a valid BPSEQ.")
 
 def bounded(tier, seed):
     rng = rng_for(seed, "c06")
